@@ -434,7 +434,7 @@ func Scenarios(tier string) []run.Scenario {
 				p.Events = []string{"a", ""}
 			}
 			out = append(out, run.Scenario{Name: fmt.Sprintf("concurrent-%s-slow%v", actors, slow), Body: concScenario(p), Check: concCheck, Sig: sig,
-				Opts: vrt.Options{PreemptBound: -1, FaultBound: -1, OrderBound: -1, Prune: true}})
+				Opts: vrt.Options{PreemptBound: -1, FaultBound: -1, OrderBound: -1, Prune: false, Race: true}})
 		}
 	}
 	return out
